@@ -163,6 +163,7 @@ type c07Backend struct {
 	seq  [][]byte // scripted responses by arrival order (overrides raw), counted from base
 	base int
 	wg   sync.WaitGroup
+	route func(line string) *c07Scripted // per-request script (overrides raw / seq when it returns non-nil)
 	live int32 // connections on which a request has started to arrive
 	idle map[net.Conn]bool // accepted, nothing received yet (a transport may pool a dialled connection unused)
 }
@@ -192,6 +193,21 @@ func c07StartBackend(raw []byte) *c07Backend {
 		}
 	}()
 	return b
+}
+
+// c07Scripted: an answer written in two parts: Raw[:PauseAt], then - once Gate is closed -
+// the rest; Parked is closed when the first part has been written.
+type c07Scripted struct {
+	Raw     []byte
+	PauseAt int
+	Parked  chan struct{}
+	Gate    chan struct{}
+}
+
+func (b *c07Backend) SetRoute(f func(line string) *c07Scripted) {
+	b.mu.Lock()
+	b.route = f
+	b.mu.Unlock()
 }
 
 // Quiesce waits until no connection is being served any more (every request that
@@ -236,9 +252,25 @@ func (b *c07Backend) serve(c net.Conn) {
 		}
 		raw = b.seq[k]
 	}
+	route := b.route
 	b.mu.Unlock()
 	if !complete {
 		return
+	}
+	if route != nil {
+		if sc := route(h.Line); sc != nil {
+			raw = sc.Raw
+			if sc.Gate != nil && sc.PauseAt > 0 && sc.PauseAt < len(raw) {
+				c.Write(raw[:sc.PauseAt])
+				close(sc.Parked)
+				select {
+				case <-sc.Gate:
+				case <-time.After(c07IOTimeout):
+				}
+				c.SetDeadline(time.Now().Add(c07IOTimeout))
+				raw = raw[sc.PauseAt:]
+			}
+		}
 	}
 	c.Write(raw)
 	if tc, ok := c.(*net.TCPConn); ok {
@@ -303,46 +335,80 @@ type c07Resp struct {
 // c07Exchange writes raw on a fresh connection (optionally half-closing
 // afterwards) and parses one response.
 func c07Exchange(addr string, raw []byte, halfClose bool) (r c07Resp) {
-	c, err := net.DialTimeout("tcp", addr, c07IOTimeout)
-	if err != nil {
+	p := c07Send(addr, raw, halfClose)
+	if p == nil {
 		return
 	}
-	defer c.Close()
+	return p.Finish()
+}
+
+// c07Pending is an exchange in flight: the request has been handed to the socket, the
+// response is read in two steps (head, then body) so that other exchanges can be run
+// in between.
+type c07Pending struct {
+	c     net.Conn
+	br    *bufio.Reader
+	wdone chan struct{}
+	head  c07Head
+	r     c07Resp
+	read  bool // head already read
+}
+
+func c07Send(addr string, raw []byte, halfClose bool) *c07Pending {
+	c, err := net.DialTimeout("tcp", addr, c07IOTimeout)
+	if err != nil {
+		return nil
+	}
 	c.SetDeadline(time.Now().Add(c07IOTimeout))
 	// write concurrently with reading: the server may answer (413) and stop
 	// reading long before a large body has been written
-	wdone := make(chan struct{})
+	p := &c07Pending{c: c, br: bufio.NewReader(c), wdone: make(chan struct{})}
 	go func() {
-		defer close(wdone)
+		defer close(p.wdone)
 		if _, err := c.Write(raw); err == nil && halfClose {
 			c.(*net.TCPConn).CloseWrite()
 		}
 	}()
-	defer func() {
-		c.Close()
-		<-wdone
-	}()
-	br := bufio.NewReader(c)
+	return p
+}
+
+// ReadHead blocks until the status line and header block of the (final) response arrived.
+func (p *c07Pending) ReadHead() bool {
+	if p.read {
+		return p.r.Got
+	}
+	p.read = true
 	for {
-		h, ok := c07ReadHead(br)
+		h, ok := c07ReadHead(p.br)
 		if !ok {
-			return
+			return false
 		}
 		parts := strings.SplitN(h.Line, " ", 3)
 		if len(parts) < 2 {
-			return
+			return false
 		}
 		st, err := strconv.Atoi(parts[1])
 		if err != nil {
-			return
+			return false
 		}
 		if st/100 == 1 {
 			continue
 		}
-		r.Got, r.Status, r.Line, r.Headers = true, st, h.Line, h.Headers
-		r.Body, r.Kind, r.Declared, r.FrameOK = c07ReadBody(br, &h, true, st)
-		return
+		p.head = h
+		p.r.Got, p.r.Status, p.r.Line, p.r.Headers = true, st, h.Line, h.Headers
+		return true
 	}
+}
+
+func (p *c07Pending) Finish() c07Resp {
+	defer func() {
+		p.c.Close()
+		<-p.wdone
+	}()
+	if p.ReadHead() {
+		p.r.Body, p.r.Kind, p.r.Declared, p.r.FrameOK = c07ReadBody(p.br, &p.head, true, p.r.Status)
+	}
+	return p.r
 }
 
 // c07Chunked renders body in chunks of the given size; term adds the last-chunk.
